@@ -141,10 +141,15 @@ type fileSpec struct {
 	// Sibling, if set, is a second proto file of the same proto package and the same Go package with
 	// services of its own. The generator is run once per file (the other file is only imported), the way
 	// protoc is commonly driven; both outputs land in one Go package, which must compile if both runs accept.
-	Sibling  []svcSpec
-	Protolib string // "", "custom"
-	JSON     bool
-	GoPkg    string
+	Sibling []svcSpec
+	// Twin, if set, is a second proto file of another proto package and another Go package, generated in
+	// the SAME plugin run as svc.proto (protoc one.proto two.proto). Its services may use TwoReq and
+	// .google.protobuf.StringValue; state the generator keeps from the first file must not leak into it.
+	Twin      []svcSpec
+	TwinFirst bool   // two.proto is listed (and generated) before svc.proto
+	Protolib  string // "", "custom"
+	JSON      bool
+	GoPkg     string
 }
 
 func (f fileSpec) String() string {
@@ -306,6 +311,19 @@ func twoPkgSpecs() map[string]fileSpec {
 	return out
 }
 
+// twinSpecs: two files of different Go packages generated in one run of the plugin, both using the
+// same well-known type.
+func twinSpecs() map[string]fileSpec {
+	sv := ".google.protobuf.StringValue"
+	out := map[string]fileSpec{}
+	for _, first := range []bool{false, true} {
+		out[fmt.Sprintf("shared-wellknown-type-twin-first=%v", first)] = fileSpec{Pkg: "a", JSON: first, Msgs: []string{"Req"}, TwinFirst: first,
+			Services: []svcSpec{{Name: "One", Methods: []methodSpec{{Name: "U", In: sv, Out: "Req"}, {Name: "B", CS: true, SS: true, In: sv, Out: sv}}}},
+			Twin:     []svcSpec{{Name: "Two", Methods: []methodSpec{{Name: "U", In: sv, Out: "TwoReq"}, {Name: "S", SS: true, In: "TwoReq", Out: sv}, {Name: "C", CS: true, In: sv, Out: sv}}}}}
+	}
+	return out
+}
+
 // siblingSpecs: two files of one Go package, generated in separate runs.
 func siblingSpecs() map[string]fileSpec {
 	get := []methodSpec{{Name: "Get", In: "Req", Out: "Req"}}
@@ -394,6 +412,33 @@ func buildRequest(f fileSpec, idx int) *pluginpb.CodeGeneratorRequest {
 		fd.Dependency = append(fd.Dependency, "sib.proto")
 		files = append(files[:len(files)-1], sib, fd)
 	}
+	if f.Twin != nil {
+		two := &descriptorpb.FileDescriptorProto{
+			Name: proto.String("two.proto"), Package: proto.String("two"), Syntax: proto.String("proto3"),
+			Dependency:  []string{"google/protobuf/wrappers.proto"},
+			Options:     &descriptorpb.FileOptions{GoPackage: proto.String(goPkg + "/two;two")},
+			MessageType: []*descriptorpb.DescriptorProto{{Name: proto.String("TwoReq"), Field: []*descriptorpb.FieldDescriptorProto{tagField()}}},
+		}
+		for _, sv := range f.Twin {
+			sd := &descriptorpb.ServiceDescriptorProto{Name: proto.String(sv.Name)}
+			for _, m := range sv.Methods {
+				ft := func(t string) string {
+					if strings.HasPrefix(t, ".") {
+						return t
+					}
+					return ".two." + t
+				}
+				sd.Method = append(sd.Method, &descriptorpb.MethodDescriptorProto{Name: proto.String(m.Name), InputType: proto.String(ft(m.In)), OutputType: proto.String(ft(m.Out)),
+					ClientStreaming: proto.Bool(m.CS), ServerStreaming: proto.Bool(m.SS)})
+			}
+			two.Service = append(two.Service, sd)
+		}
+		if f.TwinFirst {
+			files = append(append(files[:len(files)-1:len(files)-1], two), fd)
+		} else {
+			files = append(files, two)
+		}
+	}
 	param := ""
 	var ps []string
 	if strings.HasPrefix(f.Protolib, "custom:") {
@@ -405,7 +450,14 @@ func buildRequest(f fileSpec, idx int) *pluginpb.CodeGeneratorRequest {
 		ps = append(ps, "json=false")
 	}
 	param = strings.Join(ps, ",")
-	return &pluginpb.CodeGeneratorRequest{FileToGenerate: []string{"svc.proto"}, ProtoFile: files, Parameter: proto.String(param)}
+	gen := []string{"svc.proto"}
+	if f.Twin != nil {
+		gen = []string{"svc.proto", "two.proto"}
+		if f.TwinFirst {
+			gen = []string{"two.proto", "svc.proto"}
+		}
+	}
+	return &pluginpb.CodeGeneratorRequest{FileToGenerate: gen, ProtoFile: files, Parameter: proto.String(param)}
 }
 
 func runPlugin(bin string, req *pluginpb.CodeGeneratorRequest, param string) (*pluginpb.CodeGeneratorResponse, error) {
@@ -621,7 +673,7 @@ func checkSpec(id string, f fileSpec, idx int, seed uint64) runner.Result {
 	defer os.RemoveAll(dir)
 	desc := f.String()
 	goReq := req
-	if f.ExtPkg != "" || f.Sibling != nil {
+	if f.ExtPkg != "" || f.Sibling != nil || f.Twin != nil {
 		goReq = proto.Clone(req).(*pluginpb.CodeGeneratorRequest)
 		goReq.FileToGenerate = nil
 		for _, pf := range req.ProtoFile {
@@ -672,6 +724,10 @@ func checkSpec(id string, f fileSpec, idx int, seed uint64) runner.Result {
 			os.MkdirAll(filepath.Join(dir, f.ExtPkg), 0o755)
 			target = filepath.Join(dir, f.ExtPkg, filepath.Base(r.GetName()))
 		}
+		if f.Twin != nil && strings.HasPrefix(filepath.Base(r.GetName()), "two") {
+			os.MkdirAll(filepath.Join(dir, "two"), 0o755)
+			target = filepath.Join(dir, "two", filepath.Base(r.GetName()))
+		}
 		if f.ExtPkg2 != "" && strings.HasPrefix(filepath.Base(r.GetName()), "ext2.") {
 			os.MkdirAll(filepath.Join(dir, "x", f.ExtPkg2), 0o755)
 			target = filepath.Join(dir, "x", f.ExtPkg2, filepath.Base(r.GetName()))
@@ -701,6 +757,14 @@ func checkSpec(id string, f fileSpec, idx int, seed uint64) runner.Result {
 	}
 	if len(f.Services) == 0 || nmeth == 0 && false {
 		return runner.Hold(id, desc, false)
+	}
+	if f.Twin != nil {
+		if out, err := run(mod, "go", "build", pkg+"/two"); err != nil {
+			return fail("c17:compile:second-file-of-the-run", "the generator accepted both files of the run but the second generated package does not compile", out)
+		}
+		if out, err := run(mod, "go", "vet", pkg+"/two"); err != nil {
+			return fail("c17:generated-code-does-not-vet", "go vet of the second generated package fails", out)
+		}
 	}
 	if f.ExtPkg != "" || f.Sibling != nil {
 		// messages from a foreign package: the generated package compiles and vets; the derived
@@ -803,6 +867,12 @@ func gen(tier string, seed uint64) []runner.Scenario {
 		f := twoPkgSpecs()[name]
 		name, f, idx := name, f, 5000+len(out)
 		id := "fixed/two-foreign-packages-" + name
+		out = append(out, runner.Scenario{ID: id, Run: func() runner.Result { return checkSpec(id, f, idx, seed) }})
+	}
+	for _, name := range sortedKeys(twinSpecs()) {
+		f := twinSpecs()[name]
+		name, f, idx := name, f, 5000+len(out)
+		id := "fixed/two-files-one-run-" + name
 		out = append(out, runner.Scenario{ID: id, Run: func() runner.Result { return checkSpec(id, f, idx, seed) }})
 	}
 	for _, name := range sortedKeys(siblingSpecs()) {
